@@ -23,6 +23,7 @@ import (
 
 type Facts struct {
 	w         *World
+	loopPaths bool                       // atomPathsTo: also enumerate paths that start at the header of a loop around the target (phis undetermined)
 	bindings  map[*ssa.FreeVar]ssa.Value // free variable -> value bound at the MakeClosure site
 	closSite  map[*ssa.Function]*ssa.MakeClosure
 	pathMemo  map[ssa.Value]string
